@@ -7,4 +7,47 @@ import BitstringModel.Proofs.C14
 namespace BM.C14
 open BM
 
+variable {V : Type}
+
+theorem view_ok {α} (c : Codec V) (s : Step α) (x : α) (l : List V) (h : s.view c = .ok (x, l)) :
+    s.res = .ok x ∧ items c s.data = l := by
+  unfold Step.view at h
+  cases hr : s.res with
+  | error e => rw [hr] at h; cases h
+  | ok y =>
+    rw [hr] at h
+    injection h with h
+    injection h with h1 h2
+    exact ⟨by rw [h1], h2⟩
+
+theorem view_err {α} (c : Codec V) (s : Step α) (e : Err) (h : s.view c = .error e) : s.res = .error e := by
+  unfold Step.view at h
+  cases hr : s.res with
+  | error e' => rw [hr] at h; injection h with h; rw [h]
+  | ok y => rw [hr] at h; cases h
+
+/-- A mutating call whose view is the list operation `r`, that keeps the trailing bits and changes nothing when it
+    raises, simulates `lmut`. -/
+theorem mut_step (c : Codec V) (d : Bits) (s : Step Unit) (r : Except Err (List V))
+    (hview : s.view c = r.map fun l => ((), l)) (htr : trailing c.w s.data = trailing c.w d)
+    (herr : ∀ e, s.res = .error e → s.data = d) :
+    sameOutcome (unitObs (V := V) s).res (lmut ⟨items c d, trailing c.w d⟩ r).2 ∧
+    (⟨items c (unitObs (V := V) s).data, trailing c.w (unitObs (V := V) s).data⟩ : LState V)
+      = (lmut ⟨items c d, trailing c.w d⟩ r).1 := by
+  cases r with
+  | error e =>
+    have hr := view_err c s e (by simpa [Except.map] using hview)
+    have hd := herr e hr
+    simp only [unitObs, hr, lmut, sameOutcome, hd, and_self]
+  | ok l' =>
+    obtain ⟨hr, hi⟩ := view_ok c s () l' (by simpa [Except.map] using hview)
+    simp only [unitObs, hr, lmut, sameOutcome, hi, htr, and_self]
+
+/-- The same for a call that raises and changes nothing. -/
+theorem rejected_step (c : Codec V) (d : Bits) (s : Step Unit) (e e' : Err) (hres : s.res = .error e) (hd : s.data = d) :
+    sameOutcome (unitObs (V := V) s).res (Except.error e' : Except Err (Obs V)) ∧
+    (⟨items c (unitObs (V := V) s).data, trailing c.w (unitObs (V := V) s).data⟩ : LState V)
+      = ⟨items c d, trailing c.w d⟩ := by
+  simp only [unitObs, hres, sameOutcome, hd, and_self]
+
 end BM.C14
